@@ -8,7 +8,8 @@ Import ListNotations.
 Record nobs := {
   b_tables : list (list nat * list nat);    (* per node: main table, signed-peers table (as node indices) *)
   b_flag : option bool;                     (* join: bootstrapped(); put: Ok; get: value found *)
-  b_stored : list nat }.                    (* put / get: the nodes whose store holds the key afterwards *)
+  b_stored : list nat;                      (* put / get: the nodes whose store holds the key afterwards *)
+  b_prev : list nat }.                      (* ... and before the event *)
 
 Inductive c13case :=
 | KNet (steps : list (nevent * nobs)).
@@ -31,10 +32,14 @@ Definition model_flag (nt : net) (e : nevent) : option bool :=
   | EJoin _ _ => Some (bootstrapped (nstep nt e) (length nt))
   | EPut w k => if n_alive (get nt w) then Some (snd (put nt w k)) else None
   | EGet r k => if n_alive (get nt r) then Some (get_finds nt r k) else None
+  | EPutS w k => if n_alive (get nt w) then Some (snd (put_s nt w k)) else None
+  | EGetS r k => if n_alive (get nt r) then Some (get_finds_s nt r k) else None
+  | EPutGet r k => if n_alive (get nt r) then Some (get_finds nt r k) else None
   | _ => None
   end.
 
-Definition key_of (e : nevent) : option nat := match e with EPut _ k | EGet _ k => Some k | _ => None end.
+Definition key_of (e : nevent) : option nat :=
+  match e with EPut _ k | EGet _ k | EPutS _ k | EGetS _ k | EPutGet _ k => Some k | _ => None end.
 
 Fixpoint stored_eqb (nt : net) (k : nat) (i : nat) (stored : list nat) : bool :=
   match nt with
@@ -102,7 +107,7 @@ Definition c13_pb (ps : pstate) (e : nevent) (o : nobs) : bool :=
                        else true) (all_nodes ps)
   (* a lookup queries every server (every responder enters the main table of the node that asked) *)
   && match e with
-     | ELookup j _ | EGet j _ | EPut j _ =>
+     | ELookup j _ | EGet j _ | EPut j _ | EPutGet j _ =>
          (* (a responder whose answer carries the value looked for is not entered: it shows in b_stored instead) *)
          if p_alive (pget ps j) && negb (match main_of tabs j with [] => true | _ => false end)
          then forallb (fun b => if live_server ps b && p_joined (pget ps b) && negb (Nat.eqb b j)
@@ -121,13 +126,13 @@ Definition first_learns (ps : pstate) (e : nevent) (o : nobs) : bool :=
 (* C01 after a get: if a live node other than the reader holds the key and the reader knows a live server, the value is found *)
 Definition c01_pb (ps : pstate) (e : nevent) (o : nobs) (before : list (list nat * list nat)) : bool :=
   match e with
-  | EGet r k =>
+  | EGet r k | EGetS r k | EPutGet r k =>
       if p_alive (pget ps r)
-      then let holder := existsb (fun c => live_server ps c && negb (Nat.eqb c r)) (b_stored o) in
+      then let holder := existsb (fun c => live_server ps c && negb (Nat.eqb c r)) (b_prev o) in
            let knows_live := existsb (live_server ps) (main_of before r) in
            if holder && knows_live then match b_flag o with Some true => true | _ => false end else true
       else true
-  | EPut w k =>
+  | EPut w k | EPutS w k =>
       (* Ok means somebody stores it; every live server the writer could reach stores it *)
       match b_flag o with
       | Some true => negb (match b_stored o with [] => true | _ => false end)
